@@ -618,6 +618,19 @@ func c16ForkChains(thorough bool) []c16Spec {
 						it2 := append(append([]c16Item{}, items...), c16Item{Type: "log", Side: "fork", Height: lp.h, Kind: "match"})
 						out = append(out, c16Spec{Name: fmt.Sprintf("L%d/F%d:reg@%s%d+%d,match@both%d", L, F, rp.side, rp.h, ttl, lp.h), L: L, ForkAt: F, ReorgDepth: 3, Items: it2})
 					}
+					// a DIFFERENT trigger registered on the other branch at the same height and
+					// log position (one definition asks for a data word >= 100, the other does
+					// not), and a log there that matches only one of the two definitions
+					if rp.side == "trunk" && rp.h > F && lp.side == "fork" && ttl != 2 {
+						for _, dataOnTrunk := range []bool{false, true} {
+							it5 := []c16Item{
+								{Type: "reg", Side: "trunk", Height: rp.h, Trigger: 1, TTL: ttl, Data: dataOnTrunk},
+								{Type: "reg", Side: "fork", Height: rp.h, Trigger: 2, TTL: ttl, Data: !dataOnTrunk},
+								{Type: "log", Side: "fork", Height: lp.h, Kind: "low-data"},
+							}
+							out = append(out, c16Spec{Name: fmt.Sprintf("L%d/F%d:reg1@trunk%d(data=%v),reg2@fork%d+%d,low-data@fork%d", L, F, rp.h, dataOnTrunk, rp.h, ttl, lp.h), L: L, ForkAt: F, ReorgDepth: 3, Items: it5})
+						}
+					}
 					// the registration on both sides (same trigger re-registered on the other branch)
 					if rp.side == "trunk" && rp.h > F {
 						it3 := append(append([]c16Item{}, items...), c16Item{Type: "reg", Side: "fork", Height: rp.h + 1, Trigger: 1, TTL: ttl})
